@@ -256,6 +256,21 @@ func runC08(c *Ctx, r *Report, tier string) {
 		_, b := c.Requires(pno, isInstr(in), litIs("nonnil("+lk+")", false), nil)
 		r.Check(a && b, "DIAGNOSE", pn, "unknown word is an error only when subcommands are required", c.ipos(in), "REQ(lookup miss) ∧ REQ(¬SubcommandsOptional)", fmt.Sprintf("miss necessary=%v required necessary=%v", b, a))
 	}
+	// the unknown-command error stops the argument loop: the loop continues only on the nil edge of parseNonOption's
+	// result (or, if every non-nil return of parseNonOption records parseState.err, on a test of that)
+	if loop := c.loopContaining(pa, c.isCallTo("(*parseState).pop")); loop != nil {
+		for _, in := range c.instrs(pa, c.isCallTo("(*Parser).parseNonOption")) {
+			q := &PathQ{c: c, Fn: pa, CutLit: litHas(false, "nonnil(call:(*Parser).parseNonOption(")}
+			path, found := q.Reach(Site{in.Block(), siteOf(in).I + 1}, factUnknown, isInstr(loop.Header.Instrs[0]))
+			if found {
+				if sum := c.storesErrSummaries(r); sum.ok[pno] {
+					q2 := &PathQ{c: c, Fn: pa, CutLit: litHas(false, litErrNonNil)}
+					path, found = q2.Reach(Site{in.Block(), siteOf(in).I + 1}, factUnknown, isInstr(loop.Header.Instrs[0]))
+				}
+			}
+			r.Check(!found, "DIAGNOSE", c.fname(pa), "an unknown command word stops the argument loop", c.ipos(in), "the loop continues only on the nil edge of parseNonOption's result", "parsing goes on after parseNonOption returned an error, so a later token's error replaces ErrUnknownCommand: "+pathStr(path))
+		}
+	}
 	// with optional subcommands the word goes to addArgs
 	okOpt := false
 	for _, in := range c.instrs(pno, c.isCallTo("(*parseState).addArgs")) {
